@@ -5,6 +5,7 @@ def U(id, entry, harness, src, **kw):
 T = "puthread.c"; P = "puthread-posix.c"
 UNITS = [
     U("unref", "h_unref", "thread.c", T, canaries=2, functions=["p_uthread_unref"]),
+    U("cleanup", "h_cleanup", "thread.c", T, canaries=2, functions=["pp_uthread_cleanup"]),
     U("ref", "h_ref", "thread.c", T, functions=["p_uthread_ref"]),
     U("create_full", "h_create", "thread.c", T, canaries=2, functions=["p_uthread_create_full"]),
     U("create_null", "h_create_null", "thread.c", T),
